@@ -164,6 +164,8 @@ var pureExternPrefixes = []string{
 }
 
 var freshExternPrefixes = []string{
+	"(github.com/cosmos/ibc-go/modules/capability/keeper.ScopedKeeper).", "github.com/cosmos/ibc-go/v8/modules/core/24-host.", "github.com/cosmos/ibc-go/v8/modules/core/02-client/types.NewHeight",
+	"(github.com/cosmos/ibc-go/v8/modules/core/05-port/types.ICS4Wrapper).",
 	"time.Now", "time.Sleep", "time.Since",
 	"(github.com/cosmos/cosmos-sdk/crypto/keyring.Keyring).", "(github.com/cosmos/cosmos-sdk/crypto/keyring.Signer).",
 	"(github.com/cosmos/cosmos-sdk/crypto/types.PubKey).",
@@ -465,6 +467,9 @@ func (fc *FCtx) evalBuiltin(name string, e *ast.CallExpr, st *State) []Val {
 		if !fc.mayPanic {
 			fc.oblige(st, "panic-free:panic", "false", "explicit panic is unreachable", e.Pos())
 		}
+		if fc.recoverLit != nil && !fc.inRecover {
+			fc.panicStates = append(fc.panicStates, st.clone())
+		}
 		fc.kill(st)
 		return nil
 	case "recover":
@@ -718,6 +723,10 @@ func (fc *FCtx) callByContract(c *FuncContract, fn *types.Func, sig *types.Signa
 			gv := st.ghost[g]
 			st.ghost[g] = Val{T: fc.U.Fresh("g_"+g, gv.S), S: gv.S, GoT: gv.GoT}
 		}
+	}
+	if c.Flags["may_panic"] != "" && fc.recoverLit != nil && !fc.inRecover {
+		// the callee may panic after any part of its effect: its frame is already arbitrary here, its ensures are not assumed
+		fc.panicStates = append(fc.panicStates, st.clone())
 	}
 	// results
 	rn := resultNames(sig, c)
